@@ -3,7 +3,7 @@ model phase : the specification's own acceptance predicates are total/monotone a
               EAN check automaton (MC_EAN), Codabar/2of5 acceptance (MC_1DSmall), Aztec layer rule (MC_Aztec), PDF417 dimensions (MC_PDF417)
 trace valid.: outcome-only events (result kind, size) of every entry point on alphabet, length and parameter boundaries, judged by the
               Representable / MustAccept / MustReject predicates of the family trace specifications"""
-import vlib, onedim, gen
+import vlib, onedim, gen, encconf
 import C01, C02
 
 PCTS = [0, 1, 23, 33, 50, 99, 100, 101, 400]
@@ -149,6 +149,8 @@ def run(tier):
                    dict(module="MC_PDFDims.tla", cfg="MC_PDFDims.cfg", workers=4)])
     drive = vlib.build_harness(chk.work)
     jobs = c10_jobs(chk.rng, quick)
+    for d in encconf.aztec_selection(chk, quick):          # size choices / refusals where the real encoder left AztecSel!Select (tools/encconf.py)
+        jobs.append(gen.enc("aztec", d["content"], tuple(d["p"]), proj="outcome"))
     evs, _ = onedim.judge_multi(chk, drive, jobs, wanted, nshards=14 if quick else 16, describe=describe)
     kinds = {}
     for e in evs:
